@@ -908,6 +908,9 @@ fn representatives() -> Vec<Spec> {
         Spec::Title(String::new()),
         Spec::DeviceAttrs,
         Spec::KeyboardLevel(5),
+        // levels other than the one the library itself asks for: nothing later may depend on them
+        Spec::KeyboardLevel(0),
+        Spec::KeyboardLevel(31),
     ]
 }
 
